@@ -13,6 +13,30 @@
 using namespace photon;
 
 static Raw<RangeLock> RL;
+// Typed per-thread node storage for the std::set inside RangeLock: each locker owns at most one tree node at a time, and the thread id is a
+// constant inside each scheduler branch, so every allocation is a concrete, typed static object (struct-holding malloc blocks reached through
+// merged pointers turn every node access into a byte-level operation on the heap object).
+typedef std::_Rb_tree_node<RangeLock::Range> NodeT;
+static Raw<NodeT> node0, node1, node2, node3; static bool node_used[4];
+void* operator new(size_t n)
+{
+    int me = (int)verif_get_tid();
+    CHECK(n == sizeof(NodeT), "harness: the only allocation is a tree node");
+#define PN(i) if (me == i) { CHECK(!node_used[i], "harness bound: a locker owns at most one tree node at a time"); node_used[i] = true; return &node##i.v; }
+    K_EACH(PN)
+#undef PN
+    return nullptr;
+}
+static inline void node_free(void* p)
+{
+    if (!p) return;
+#define PF(i) if (p == (void*)&node##i.v) { CHECK(node_used[i], "harness: a node is freed once"); node_used[i] = false; return; }
+    K_EACH(PF)
+#undef PF
+    CHECK(false, "harness: delete of a block that was not allocated");
+}
+void operator delete(void* p) noexcept { node_free(p); }
+void operator delete(void* p, size_t) noexcept { node_free(p); }
 static uint64_t off[KN], len[KN]; static bool inside[KN]; static int acquired[KN];
 static inline uint64_t sat_end(uint64_t o, uint64_t l) { return o + l < o ? UINT64_MAX : o + l; }
 static inline bool overlap(int a, int b) { return len[a] > 0 && len[b] > 0 && off[a] < sat_end(off[b], len[b]) && off[b] < sat_end(off[a], len[a]); }
